@@ -480,7 +480,7 @@ def run(ctx):
                 plans.append(("closure-%s+%s" % (g, h), [g, h], None, 4, False))
         plans.append(("depth3-all", GROUPS, 3, 8, False))
     ctx.pmap(explore_sub, rotate(plans, ctx.seed))
-    ctx.acc.traces = 0
+    ctx.acc.traces = ctx.acc.transitions   # every explored transition was executed on the real interpreter
     # trace validation: replay the shortest history per violation and a fixed set of histories in new interpreters
     model = PrivModel(GROUPS)
     can = canonical(model)
@@ -492,7 +492,7 @@ def run(ctx):
     def validate(h):
         return h, histmc.fresh_replay("mc.props.c10", "PrivModel", h)
     for h, got in pmap(validate, hists, ctx.jobs, "fresh-replay"):
-        ctx.acc.traces += 1
+        ctx.acc.count("fresh_interpreter_replays")
         for i, (n, g) in enumerate(zip(h, got)):
             want = orc.expected_obs(n, h[:i])
             if g != want:
